@@ -438,7 +438,9 @@ PARAM_INSTANCES = {
 LOOP_INSTANCES = {
     'C02': [('dd.bdd.BDD.reduction', 'v', 0, 'v', ('find_or_add',)),
             ('dd.bdd.BDD.reduction', 'v', 1, 'v', ('add',))],
-    'C16': [('dd.dddmp.load', 'v', 0, 'v', ('find_or_add',))],
+    'C16': [('dd.dddmp.load', 'v', 0, 'v', ('find_or_add',)),
+            ('dd.dddmp.load', 'root', 0, 'root', ('add', 'update'),
+             'optional')],
     'C18': [('dd.bdd.to_nx', 'root', 0, 'v', ('add_edge',)),
             ('dd.bdd._to_dot', 'u', 1, 'v', ('add_edge',)),
             ('dd.bdd._to_dot', 'u', 2, 'u', ('add_edge',))],
@@ -471,10 +473,13 @@ def r_sign(P, R):
                 f'{q} no longer has the subject parameter `{subj}`')
         if check_function(R, f, subj) > 0:
             n += 1
-    for q, loopvar, nth, subj, emit in LOOP_INSTANCES.get(pid, []):
+    for q, loopvar, nth, subj, emit, *opt in LOOP_INSTANCES.get(pid, []):
         f = P.func(q)
-        want += 1
         body = loop_over(f.node, loopvar, nth)
+        if body is None and opt:
+            # the translation loop is checked by R-DOMAIN when absent
+            continue
+        want += 1
         if body is None:
             raise AnalysisError(
                 f'{q}: the loop over `{loopvar}` (#{nth}) vanished')
